@@ -17,7 +17,8 @@ ID = 'C06'
 BOUNDS = {
     'quick': 'TSC grids (3,3,3) (3,4,5) (4,3,1) (3,3,1); CIC grids (3,3,3) (3,3,1) (4,3,1); one particle with free real '
              'x,y,z in [0,box] (inclusive), free weight (or None), free offset in [0, box/max(n)], arbitrary symbolic pre-grid; '
-             '_wrap_inplace on x in [-box, 2box); tsc_parallel(nthread=1, wrap=True) wiring on (3,3,1) with box=1, x0 in [-box,2box)',
+             '_wrap_inplace on x in [-box, 2box); tsc_parallel(nthread=1, wrap=True) wiring on (3,3,1) with box=1, x0 in [-box,2box)'
+             '; also: wiring items (shared with C07): N=2 (npartition 2, nthread 1) and N=3 (n1d 7, npartition 2, nthread 2), sort on/off, weights on/off',
     'thorough': 'quick plus TSC (4,4,4) (5,5,5) (6,6,6) (5,4,1) and CIC (3,4,5) (4,4,4) (4,4,1), wrap wiring along each axis, two particles (first inside cell (1,1,.), second free, box=1) on (3,3,1)',
 }
 OUTSIDE = 'float32/float64 rounding and fastmath (real model); grids with an axis of length < 3 other than the one-cell-thick ' \
